@@ -299,6 +299,13 @@ pub fn run_c14(tier: &str, seed: u64) -> Report {
         corners.push(vec![ClaimOp::Set(Claim::Custom(b.clone(), json!(1))), ClaimOp::Set(Claim::Custom(a.clone(), json!("two"))), ClaimOp::Remove(b.clone())]);
     }
     corners.push(pairs.iter().flat_map(|(a, b)| [ClaimOp::Set(Claim::Custom(a.clone(), json!(a))), ClaimOp::Set(Claim::Custom(b.clone(), json!(b)))]).collect());
+    // many claims on one builder: beyond any 8-bit (thorough: 16-bit) counter or initial capacity
+    for n in if thorough { vec![255usize, 256, 257, 1000, 70_000] } else { vec![255usize, 256, 257, 1000] } {
+        let mut ops: Vec<ClaimOp> = (0..n).map(|i| ClaimOp::Set(Claim::Custom(format!("c{}", i), json!(i)))).collect();
+        ops.push(ClaimOp::Remove(format!("c{}", n / 2)));
+        ops.push(ClaimOp::Set(Claim::Custom("c0".into(), json!("rewritten"))));
+        corners.push(ops);
+    }
     let mut r = Report::new();
     for ops in corners {
         c14_eval(&C14Case { p: P::V4L, key: key.clone(), ops }, &mut r);
@@ -419,7 +426,7 @@ pub fn replay_c14(case: &Value) -> Report {
     r
 }
 
-pub const RULE_C14: &str = "seeded random histories of 0..12 (every 16th: 0..60) set_claim/remove_claim/extend_claims operations on GenericBuilder (20000 on v4.local, 250-1500 on each other protocol; thorough 2e6 / 1e4-1.5e5) plus a fixed corner catalogue: keys = non-empty Unicode (escapes, NUL, non-BMP, 200-byte keys, near-reserved names, keys equal to a member name inside their own value, and ~45 pairs of different keys that collide under FNV-1/1a, the 31-multiplier hash, djb2, CRC-32, byte sums, truncation to 8..256 bytes or to u8/u16 characters, NFC/NFD, embedded NUL); values = JSON trees of depth <= 5 (i64/u64 extremes, exact short decimals, empty containers, null), native Rust values through Serialize (structs, tuples, Option, Vec, BTreeMap, enums, char, bytes) and registered claims through their typed constructors; the token is parsed back with a validator-free GenericParser and the whole object compared (serde_json equality) with a model map (last write wins, remove deletes) built by the harness. Plus multi-build histories (1500 on v4.local, 30-150 elsewhere; thorough 4e4): ONE GenericBuilder is driven through 3-17 set/remove/footer/assertion/build steps and EVERY token it emits must equal the model at that point. distinct_nontrivial = distinct (protocol, #ops, #sets, #members, value-shape signature) that built, parsed and compared equal";
+pub const RULE_C14: &str = "seeded random histories of 0..12 (every 16th: 0..60) set_claim/remove_claim/extend_claims operations on GenericBuilder (20000 on v4.local, 250-1500 on each other protocol; thorough 2e6 / 1e4-1.5e5) plus a fixed corner catalogue: keys = non-empty Unicode (escapes, NUL, non-BMP, 200-byte keys, near-reserved names, keys equal to a member name inside their own value, 255/256/257/1000 (thorough 70000) claims on one builder, and ~45 pairs of different keys that collide under FNV-1/1a, the 31-multiplier hash, djb2, CRC-32, byte sums, truncation to 8..256 bytes or to u8/u16 characters, NFC/NFD, embedded NUL); values = JSON trees of depth <= 5 (i64/u64 extremes, exact short decimals, empty containers, null), native Rust values through Serialize (structs, tuples, Option, Vec, BTreeMap, enums, char, bytes) and registered claims through their typed constructors; the token is parsed back with a validator-free GenericParser and the whole object compared (serde_json equality) with a model map (last write wins, remove deletes) built by the harness. Plus multi-build histories (1500 on v4.local, 30-150 elsewhere; thorough 4e4): ONE GenericBuilder is driven through 3-17 set/remove/footer/assertion/build steps and EVERY token it emits must equal the model at that point. distinct_nontrivial = distinct (protocol, #ops, #sets, #members, value-shape signature) that built, parsed and compared equal";
 
 // ==========================================================================================
 // C15
